@@ -1306,6 +1306,9 @@ package godi
 //@   safety off
 //@   nopanic
 //@   requires recv: o != nil
+//@   ensures[C15,C04] accepted_aliases_are_typed: result == nil ==> (forall j int :: 0 <= j && j < len(o.As) ==> ext("reflect.TypeOf", "reflect.Type", o.As[j]) != nil)
+//@   loop 1
+//@     invariant typed_so_far: forall j int :: 0 <= j && j < idx ==> ext("reflect.TypeOf", "reflect.Type", o.As[j]) != nil
 //
 //@ func collection.rollbackTo
 //@   requires maps: regmaps(r) && 0 <= n && n <= len(r.allDescriptors)
@@ -1323,8 +1326,6 @@ package godi
 //
 //@ func collection.addService
 //@   safety[C15,C17]
-//@   unchecked nil-iface-call#2: descriptor.Type is non-nil after Validate (the descriptor is not modified in between; lost over the loop frame)
-//@   unchecked nil-iface-call#3: reflect.PointerTo never returns nil
 //@   requires tracked_nonnil: forall i int :: 0 <= i && i < len(r.allDescriptors) ==> r.allDescriptors[i] != nil
 //@   requires maps: regmaps(r) && r.analyzer != nil
 // a registration that is accepted without registering any alias was not asked for aliases (As is never silently ignored)
@@ -1388,6 +1389,8 @@ package godi
 //@     invariant phase: ncalls("newDescriptorWithAnalyzer") == 1 && callret("newDescriptorWithAnalyzer", 0, 1) == nil && ncalls("Descriptor.Validate") == 1 && callret("Descriptor.Validate", 0, 0) == nil
 //@        && ncalls("addOptions.Validate") == 1 && callret("addOptions.Validate", 0, 0) == nil && ncalls("reflection.Analyzer.Analyze") == 1 && callret("reflection.Analyzer.Analyze", 0, 1) == nil && descriptor != nil && descriptor.Lifetime == lifetime
 //@   loop 7
+//@     invariant registered_type_is_known: descriptor != nil && descriptor.Type != nil
+//@     invariant aliases_are_typed: forall j int :: 0 <= j && j < len(options.As) ==> ext("reflect.TypeOf", "reflect.Type", options.As[j]) != nil
 //@     invariant outputs_nonnil: forall i int :: 0 <= i && i < len(outputs) ==> outputs[i] != nil
 //@     invariant outputs_are_the_registered: len(outputs) == ncalls("collection.registerDescriptor") && (forall i int :: 0 <= i && i < len(outputs) ==> outputs[i] == callarg("collection.registerDescriptor", i, 1, "*Descriptor"))
 //@     invariant build_list_grows: mark == len(old(r.allDescriptors)) && len(r.allDescriptors) >= mark && ncalls("collection.rollbackTo") == 0
